@@ -750,17 +750,24 @@ func registerIntercepts(g *Engine) {
 		// Time{wall: hasMonotonic, ext: monotonic reading, loc: nil}; the real
 		// Time methods run on it. Readings are non-decreasing along a path.
 		t := e.tb
-		ext := e.hiddenFresh("now", 64)
-		lo := t.Const(64, 1<<40)
+		var ext *Node
+		if e.inInit {
+			// package initialisation (timeRef): only differences of readings
+			// matter, so the origin of the monotonic clock is fixed; readings
+			// taken by lazily run initialisers do not disturb the harness clock
+			return StructVal{t.Const(64, 1<<63), t.Const(64, 1<<40), PtrVal{}}
+		}
 		if e.lastNow != nil {
-			lo = e.lastNow
+			// successive readings within one step: previous + d, 0 <= d < 2^20 ns
+			// (about 1 ms); keeping the reading a sum makes differences of
+			// readings small sums that interval reasoning decides
+			d := e.hiddenFresh("dt", 20)
+			ext = t.mk(Node{op: OAdd, w: 64, args: []*Node{e.lastNow, t.ZExt(d, 64)}})
+		} else {
+			ext = e.hiddenFresh("now", 64)
+			// the process has been running for at least 1 ns and at most ~36 years
+			e.assume(t.BAnd(t.Cmp(OUle, t.Const(64, 1<<40+1), ext), t.Cmp(OUle, ext, t.Const(64, 1<<60))))
 		}
-		hi := t.Const(64, 1<<61)
-		if e.lastNow != nil && !e.lastNowInit {
-			hi = t.Bin(OAdd, e.lastNow, t.Const(64, 1_000_000)) // successive readings within one step: <= 1 ms apart
-		}
-		e.lastNowInit = e.inInit // the process may have run for any time since package initialisation
-		e.assume(t.BAnd(t.Cmp(OSle, lo, ext), t.Cmp(OSle, ext, hi)))
 		e.lastNow = ext
 		return StructVal{t.Const(64, 1<<63), ext, PtrVal{}}
 	}
@@ -890,9 +897,16 @@ func registerIntercepts(g *Engine) {
 		return e.sliceFromBytes(out)
 	}
 	txid := func(e *Exec, l *Loc) {
+		// one 96-bit variable per id; 96-bit random ids: freshly drawn ids are
+		// pairwise distinct (one disequality each)
+		id := e.hiddenFresh("txid", 96)
 		for i := 0; i < 12; i++ {
-			l.sub[i].v = e.hiddenFresh("txid", 8)
+			l.sub[i].v = e.tb.Extract(id, 8*(11-i)+7, 8*(11-i))
 		}
+		for _, prev := range e.txids {
+			e.assume(e.tb.BNot(e.tb.Eq(id, prev)))
+		}
+		e.txids = append(e.txids, id)
 	}
 	ic["(*github.com/pion/stun/v3.Message).NewTransactionID"] = func(e *Exec, fn *ssa.Function, a []Value) Value {
 		m := e.derefLoc(a[0].(PtrVal))
@@ -1036,14 +1050,37 @@ func registerIntercepts(g *Engine) {
 	// the inputs compared within one path ("up to CRC-32 collisions")
 	ic["hash/crc32.ChecksumIEEE"] = func(e *Exec, fn *ssa.Function, a []Value) Value {
 		in := StringVal{b: e.bytesOfSlice(a[0].(SliceVal))}
-		var out *Node
 		if c, ok := in.Concrete(); ok {
-			out = e.tb.Const(32, uint64(crc32IEEE([]byte(c))))
-		} else {
-			out = e.tb.Var(fmt.Sprintf("crc!%d", len(e.crcSeen)), 32)
+			out := e.tb.Const(32, uint64(crc32IEEE([]byte(c))))
+			if e.cfg.CRCInjective {
+				for _, r := range e.crcSeen {
+					e.assume(e.tb.Eq(e.tb.Eq(out, r.out), e.strEq(in, r.in)))
+				}
+				e.crcSeen = append(e.crcSeen, crcRec{in, out})
+			}
+			return out
 		}
+		// same input terms => same value (functional consistency for free)
 		for _, r := range e.crcSeen {
-			e.assume(e.tb.Eq(e.tb.Eq(out, r.out), e.strEq(in, r.in)))
+			if len(r.in.b) == len(in.b) {
+				same := true
+				for i := range in.b {
+					if r.in.b[i] != in.b[i] {
+						same = false
+						break
+					}
+				}
+				if same {
+					return r.out
+				}
+			}
+		}
+		out := e.tb.Var(fmt.Sprintf("crc!%d", len(e.crcSeen)), 32)
+		if e.cfg.CRCInjective {
+			// "up to CRC-32 collisions": equal values exactly for equal inputs
+			for _, r := range e.crcSeen {
+				e.assume(e.tb.Eq(e.tb.Eq(out, r.out), e.strEq(in, r.in)))
+			}
 		}
 		e.crcSeen = append(e.crcSeen, crcRec{in, out})
 		return out
